@@ -148,6 +148,9 @@ static Boolean GetExport(char* Name, LargeWord* Result) {
     LongInt z;
 
     for (PartRun = PartList; PartRun; PartRun = PartRun->Next) {
+        if (!PartRun->RelocInfo) {
+            continue;
+        }
         for (z = 0; z < PartRun->RelocInfo->ExportCount; z++) {
             if (!strcmp(Name, PartRun->RelocInfo->ExportEntries[z].Name)) {
                 *Result = PartRun->RelocInfo->ExportEntries[z].Value;
@@ -243,7 +246,8 @@ static void ReadSymbols(char const* pSrcName, int Index) {
                 }
                 PNew->RelocInfo = ReadRelocInfo(f);
                 if (!PNew->RelocInfo) {
-                    ChkIO(SrcName);
+                    ChkRdIO(SrcName, f);
+                    FormatError(SrcName, getmessage(Num_FormatRelocInfoMissing));
                 }
 
                 /* check for double-defined symbols */
@@ -392,8 +396,16 @@ static void ProcessFile(char const* pSrcName, int Index) {
             }
 
             UndefFlag = False;
+            if (!PartRun || !PartRun->RelocInfo) {
+                FormatError(SrcName, getmessage(Num_FormatRelocInfoMissing));
+            }
             for (z = 0; z < PartRun->RelocInfo->RelocCount; z++) {
                 PReloc = PartRun->RelocInfo->RelocEntries + z;
+                if ((PReloc->Addr < PartRun->CodeStart)
+                    || (PReloc->Addr - PartRun->CodeStart + ((RelocBitCnt(PReloc->Type) + 7) >> 3)
+                        > Len)) {
+                    FormatError(SrcName, getmessage(Num_FormatRelocInfoMissing));
+                }
                 Found  = True;
                 if (!strcmp(PReloc->Name, RelName_SegStart)) {
                     Value = PartRun->CodeStart;
